@@ -184,6 +184,23 @@ func idsTextS(ids []string) string {
 	return strings.Join(ids, ",")
 }
 
+// reentW is a destination that itself logs (through an unrelated logger) while it is being written
+// to, and only then takes its copy of the payload: a record must not change under the feet of the
+// destinations that are still to be served.
+type reentW struct {
+	plainW
+	side slog.Logger
+}
+
+func (w *reentW) Write(p []byte) (int, error) {
+	w.side.Info("logged from inside a destination", "nested", true, "len", len(p))
+	return w.plainW.Write(p)
+}
+
+var c02Side = func() slog.Logger {
+	return slog.New("c02-side").SetWriter(io.Discard).SetErrorWriter(io.Discard).SetLevel(slog.InfoLevel).SetJSONMode(true)
+}
+
 func (g *rng) c02NewLogger(format string, idx int, pkg bool) *c02Logger {
 	c := &c02Logger{format: format, log: &evLog{}, leveled: map[int][]int{}, pkg: pkg, writerOf: map[int]io.Writer{}}
 	if pkg {
@@ -196,7 +213,9 @@ func (g *rng) c02NewLogger(format string, idx int, pkg bool) *c02Logger {
 	next := idx * 10
 	mk := func() int {
 		next++
-		if g.chance(1, 2) {
+		if g.chance(1, 5) {
+			c.writerOf[next] = &reentW{plainW{next, c.log}, c02Side()}
+		} else if g.chance(1, 2) {
 			c.writerOf[next] = &plainW{next, c.log}
 		} else {
 			c.writerOf[next] = slog.NewLogWriter(&closeW{plainW{next, c.log}})
